@@ -241,7 +241,7 @@ class Offers:
 
     def _send(self, a, entries):
         fl, sid = self.sess[a].next()
-        self.prot.datagram_received(net.sd_bytes(entries, sid, reboot=fl), ADDRS[a], False)
+        self.prot.datagram_received(net.sd_bytes(net.with_riders(entries, sid // 2), sid, reboot=fl), ADDRS[a], False)
 
     def refresh(self, slot, ttl):
         # the endpoint sits in the first or in the second option run, alone or next to another option, from refresh to refresh
@@ -305,7 +305,7 @@ class Subscribes:
 
     def _send(self, a, entries):
         fl, sid = self.sess[a].next()
-        self.prot.datagram_received(net.sd_bytes(entries, sid, reboot=fl), ADDRS[a], False)
+        self.prot.datagram_received(net.sd_bytes(net.with_riders(entries, sid // 2), sid, reboot=fl), ADDRS[a], False)
 
     def refresh(self, slot, ttl):
         self._send(slot[1], [net.subscribe(0x2000, 1, 1, slot[0] + 1, ttl, o1=[_ep(ADDRS[slot[1]])])])
